@@ -199,6 +199,29 @@ func TestC02(t *testing.T) {
 		hx.RapidCheck(t, rec, "streams", func(rt *rapid.T, fail func(string, string, any)) {
 			d := gen.D{T: rt}
 			o := gen.DefaultStreamOpts()
+			if d.Int(0, 9, "localtimes") == 0 {
+				// a stream of the messages that carry local times (and a
+				// timestamp to refer to), so that one Decode call meets
+				// several local times with equal, zero and different offsets
+				ft := []fit.FileType{fit.FileTypeActivity, fit.FileTypeMonitoringA, fit.FileTypeMonitoringB, fit.FileTypeSchedules}[d.Int(0, 3, "ltft")]
+				o.FileType = int(ft)
+				o.Msgs = nil
+				tab := prof.Table()
+				for _, m := range prof.HostedMsgs(ft) {
+					for _, fi := range tab.Msgs[m].Fields {
+						if m != 0 && fi.Kind == fitmodel.KindTimeLocal {
+							o.Msgs = append(o.Msgs, m)
+							break
+						}
+					}
+				}
+				o.TimeBias = true
+				o.Unhosted = false
+				o.ExtraFileIds = false
+				o.MaxFields = 3
+				o.MinRecs, o.MaxRecs = 4, 30
+				rec.Class("local-time stream", 1)
+			}
 			s, info := gen.GenStream(d, o)
 			c := mkCase(info.FileType, s)
 			if d.Int(0, 2, "chunked") == 0 {
